@@ -269,6 +269,7 @@ pub fn run(out: &mut Out, thorough: bool, seed: u64, _extra: &[String]) {
                     for zmode in 0..(if first { 8 } else { 6 }) {
                         let mode = zmode;
                         let (ct, lm) = match std::panic::catch_unwind(std::panic::AssertUnwindSafe(|| enc_zero(&s, &pid, zmode, &mut r))) { Ok(c) => c, Err(_) => { out.raw(&format!("!FAIL fresh_encrypt {} zero mode={} :: encryption of zero was refused / panicked # encrypt-panic", cls, mode)); continue } };
+                        if ct.parms_id() != &pid { out.raw(&format!("!FAIL fresh_level {} zero zmode={} :: the encryption of zero is not at the level that was asked for # {}-zero-level", cls, zmode, cls)); continue; }
                         out.case(&format!("fresh {} {} 0", s.ct_case(&ct), lm), &format!("{}-zero-m{}{}", cls, lm, ["", "", "-uprng-reuse", "-uprng", "-uprng-reuse", "-uprng", "-first-reuse", "-first-uprng-reuse"][zmode as usize]), || s.dec_str(&ct));
                     }
                 }
